@@ -1,4 +1,5 @@
 import LyModel.Diff.Lemmas13Merge
+import LyModel.Diff.Lemmas13Inv
 /-!
 # C13 — diffs can be reversed and composed (`src/diff.c`: `lyd_diff_reverse_all`, `lyd_diff_merge_all`)
 
@@ -56,6 +57,16 @@ def exB : List DNode := [ .inner 0 {} [] [ tm 1 "e", tm 3 "b", tm 3 "c" ] ]
 example : ∃ _ : KeyOrder exS, goodT exS exA = true ∧ exactDiff exS exA (diff exS true exA exB) = true ∧
     (diff exS true exA exB).length = 2 :=
   ⟨keyOrder_of_stringLL (by decide +kernel), by decide +kernel, by decide +kernel, by decide +kernel⟩
+
+/-- `reverse_involutive` on the fragment: reversing the reversed diff of an exact diff gives the diff back — exactly, metadata
+order included — as the copy `lyd_dup_siblings` makes of it (`revDupL`: every node `LYD_NEW`, `LYD_WHEN_TRUE` dropped).
+`stdL`: `create` / `delete` nodes carry the `yang:operation` metadata only, as `lyd_diff_add` writes them (the operation
+is re-appended at the end of the metadata list by `lyd_diff_change_op`). -/
+theorem reverse_involutive {S : Schema} {A D : List DNode} (hD : exactDiff S A D = true) (hstd : stdL D = true) :
+    ∃ R, reverse S D = .ok R ∧ reverse S R = .ok (revDupL D) :=
+  reverse_reverse hD hstd
+
+example : stdL (diff exS true exA exB) = true := by decide +kernel
 
 /-- `reverse_apply` is false as written for user-ordered leaf-lists (finding F15(a)): the reversed moves keep their forward
 order.  A = `0 1 2`, B = `1 2 0`: the result is `0 2 1`. -/
